@@ -168,8 +168,6 @@ Section QasmProofs.
   Proof. mat_entries close. Qed.
   Lemma q_crz_lit a ac : a * ac = z1 -> q_crz O a ac = mdiag O [z1; z1; ac; a].
   Proof. intros U. unfold q_crz. rewrite !q_u1_lit. mat_entries ltac:(close_with ltac:(ring [U])). Qed.
-  Lemma q_cu1_lit a ac : a * ac = z1 -> q_cu1 O a ac = mdiag O [z1; z1; z1; a * a].
-  Proof. intros U. unfold q_cu1. rewrite !q_u1_lit. mat_entries ltac:(close_with ltac:(ring [U])). Qed.
 
   (* the special exponents of XPowGate at global shift 0 *)
   Theorem qasm_rule_x : spec_XPow O ii (- ii) z1 = q_x O.
